@@ -248,7 +248,7 @@ def _check_case(case):
                 irregular += 1
                 continue
             nval += 1
-            bykey.setdefault((m["stage"], tuple(args)), {})[iface] = (r["v"], m["ov"])
+            bykey.setdefault((m["stage"], tuple(args)), {})[iface] = (r["v"], m["ov"], tol)
             desc = "%s(%s) stage=%s overrides=%s -> %r (%s), reference %r, tolerance %.3g" % (
                 iface, ", ".join(repr(x) for x in args), m["stage"], m["ov"], obs, r["v"], ref, tol)
             fcall = {"args": [MG.hexf(x) for x in args], "iface": iface, "stage": m["stage"]}
@@ -261,8 +261,9 @@ def _check_case(case):
                 continue
             if close(obs, ref, tol):
                 e = abs(obs - ref) / tol if tol > 0 else 0.0
-                k = "value." + ("data" if isdata else iface)
-                errs[k] = max(errs.get(k, 0.0), e)
+                if prog.get("longcat", "none") == "none":  # calibration statistic: long-literal classes apart
+                    k = "value." + ("data" if isdata else iface)
+                    errs[k] = max(errs.get(k, 0.0), e)
                 continue
             used_default = len(m["ov"]) < len(P.par_values)
             kk = known_key_for(P, iface, used_default)
@@ -280,19 +281,35 @@ def _check_case(case):
                                       ", as-emitted reference %r" % ref3, fcall))
                         continue
             fails.append(("C37.value." + iface, desc, fcall))
-    # all interfaces agree bit for bit (same parameter values)
+    # all interfaces agree (same parameter values): bit for bit, except when the body calls libm functions
+    # that are not correctly rounded -- g++ folds such calls on compile-time constants (the c interface declares
+    # its parameters constexpr) with exact rounding while the other interfaces call glibc at run time; there the
+    # values must agree within the rounding tolerance
+    libm = P.has_libm()
     for (stage, args), d in bykey.items():
-        vals = {}
-        for i, (hv, ov) in d.items():
+        vals, tols = {}, []
+        for i, (hv, ov, tol) in d.items():
             if stage == "defaults" and P.prog.get("longcat") in ("param", "param15") and (
                     (i == "c" and K_CPAR6 in KNOWN) or (i == "cxx" and K_XPAR6 in KNOWN)):
                 continue  # the emitted default values differ between interfaces (known classes above)
+            if stage == "defaults" and P.prog.get("longcat") == "param15" and K_GPAR14 in KNOWN:
+                continue  # 14-digit defaults in one interface, 6 or 14 in the others
             if i == "c" and stage != "defaults" and P.par_values:
                 continue  # no run-time override in the c interface
-            vals[i] = hv
-        if len(set(MG.unhex(v) if v != "nan" else "nan" for v in vals.values())) > 1:
-            fails.append(("C37.agree", "interfaces disagree at (%s) stage=%s: %s" % (
-                ", ".join(repr(x) for x in args), stage, vals), {"args": [MG.hexf(x) for x in args], "stage": stage}))
+            vals[i] = MG.unhex(hv)
+            tols.append(tol)
+        if len(vals) < 2:
+            continue
+        fv = list(vals.values())
+        if libm:
+            bad = max(fv) - min(fv) > 2.0 * max(tols)
+        else:
+            bad = len(set(fv)) > 1
+        if bad:
+            fails.append(("C37.agree", "interfaces disagree at (%s) stage=%s: %s (%s)" % (
+                ", ".join(repr(x) for x in args), stage, {k: v.hex() for k, v in vals.items()},
+                "within-tolerance agreement demanded: libm calls" if libm else "bitwise agreement demanded"),
+                {"args": [MG.hexf(x) for x in args], "stage": stage}))
     classes = ["kind." + prog["kind"], "longcat." + prog.get("longcat", "none"), "nin.%d" % P.nin]
     if isdata:
         classes += ["data." + str(P.interp), "extrap." + str(P.extrap), "points.%d" % len(P.ys_lit)]
@@ -472,10 +489,17 @@ def main():
     strat = MG.strategies("c37")
     only = os.environ.get("VERIF_ONLY", "")
     if only in ("", "gen"):
+        import time
+        t0 = time.time()
         cases = MG.collect_cases(strat, n, SEED)
+        t1 = time.time()
         MG.prebuild([c["prog"] for c in cases], ROOT, JOBS)
+        t2 = time.time()
         run_hypothesis(u, "gen", strat, check_case, max_examples=n)
         MG.flush_known(u, "gen")
+        u.note("phases: generate %.0f s, mfront + g++ (parallel, cached) %.0f s, probe + oracle %.0f s" % (
+            t1 - t0, t2 - t1, time.time() - t2))
+        print(u.notes[-1], flush=True)
     if only in ("", "repo"):
         entries = REPO_FILES + (REPO_THOROUGH if TIER == "thorough" else [])
         for fn, fail, worst in parallel_map(repo_case, entries, JOBS):
